@@ -325,8 +325,36 @@ def gen_mq_life(rng: random.Random, tier: str) -> dict:
         ops.append([t, "poll"])
         t_recv = t + lat_ns
         t = t_recv + rng.choice([0, 1, 1000, lat_ns + 1])       # the consumer works on it
-        detour = rng.choice(["flight", "tmo", "tmo", "tmo", "tmo", "requeue", "dead", "tmo2"])
+        detour = rng.choice(["flight", "tmo", "tmo", "tmo", "tmo", "requeue", "dead", "tmo2", "orphan", "orphan"])
         due = None
+        if detour == "orphan":
+            # the redelivery timer fires while nobody is subscribed: timeout, every consumer leaves before the timer is
+            # due (or right at / after it), the timer finds no consumer, consumers come back, a poll hands the message out,
+            # and from then on it keeps timing out — every timeout must arm a new redelivery or, at the limit, dead-letter
+            ops.append([t, "tmo", k])
+            due = t + rd
+            t_leave = rng.choice([t, t + 1, t + rd // 2, due - 1, due, due + 1])
+            for c in range(ncons):
+                if rng.random() < 0.9:
+                    ops.append([t_leave, "unsub", c])
+            t_back = max(t_leave, rng.choice([due - 1, due, due + 1, due + rd // 4])) + rng.choice([0, 1])
+            for c in rng.sample(range(ncons), rng.randint(1, ncons)):
+                ops.append([t_back, "sub", c])
+            tt = t_back + rng.choice([0, 1, 1000])
+            ops.append([tt, "poll"])
+            for _ in range(rng.choice([1, 2, 3, 4])):
+                tt += lat_ns + rng.choice([1, 1000, rd // 3])
+                ops.append([tt, "tmo", k])                       # times out again
+                if rng.random() < 0.3:
+                    ops.append([tt + rng.choice([0, 1]), "tmo", k])
+                tt += rd + rng.choice([0, 1, lat_ns])             # past the next redelivery
+                if rng.random() < 0.4:
+                    ops.append([tt, "poll"])
+            for c in range(ncons):
+                ops.append([tt + 1, "sub", c])                   # everybody is back for the next message
+            if rng.random() < 0.5:
+                ops.append([tt + 2, "ack", k])
+            continue
         if detour in ("tmo", "tmo2"):
             ops.append([t, "tmo", k])
             due = t + rd                                          # the redelivery event (below the limit)
@@ -878,7 +906,8 @@ class C19(core.Property):
             "when at least one delivery reached a consumer; 30 % of the mq cases are life-cycle scripts: per message publish, poll, "
             "a detour (still in flight / visibility timeout / double timeout / reject-requeue / dead-letter) and then the "
             "acknowledgement placed before, at and after the instant the redelivery event is due (±1 ns, ±latency), racing polls, "
-            "double acks, acks of neighbouring or unknown ids, polls afterwards. family assign (2/10): sequences of assign() calls on one strategy "
+            "double acks, acks of neighbouring or unknown ids, polls afterwards; or an orphaned redelivery: timeout, all consumers unsubscribe around the instant the "
+            "redelivery timer is due (±1 ns), consumers return, poll, then 1–4 further timeout / redelivery cycles up to the limit. family assign (2/10): sequences of assign() calls on one strategy "
             "object (0–8 partitions, ≤6 consumers, shuffled inputs); non-trivial with ≥2 partitions and ≥2 consumers; thorough "
             "tier first enumerates every membership of ≤5 consumers × ≤8 partitions for the three strategies, every ordered pair "
             "(5 consumers) and triple (4 consumers) of memberships for sticky. family stream (2/10): ≤36 append/read/join/leave/"
@@ -908,6 +937,10 @@ class C19(core.Property):
         "(in flight, back in pending after a timeout, requeued, dead-lettered): after the call no delivery of k may start, and if the "
         "queue still owed k (published, never acknowledged, not dead-lettered — judged from the trace alone) the acknowledged counter "
         "moves by one",
+        "'every requested redelivery …' / 'the limit moves a message to the dead-letter queue': schedule_redelivery(k) on a message that is in flight (a delivery started, "
+        "no ack / reject / effective timeout since) while no redelivery event for k is outstanding must hand out a redelivery event or dead-letter — judged from the trace "
+        "(mq/redelivery/timeout-of-in-flight-message-refused); a redelivery event that fires for a message the queue owes while a consumer is subscribed must start a delivery "
+        "(mq/redelivery/timer-fired-consumer-subscribed-not-delivered); with nobody subscribed the message stays pending (clause accounted)",
         "assignment strategies: consumer names and partition ids are duplicate-free (what ConsumerGroup passes)",
         "stream/topic times are on a 0.5 s / integer-ns grid so that the code's float seconds are exact",
         "read(max_records=0): the clause 'the first min(m, count) records' is judged for m ≥ 1; for m = 0 the code hands out one "
@@ -1134,6 +1167,7 @@ THEOREMS = [
     "HappyModel.C19.Props.no_delivery_after_ack",
     "HappyModel.C19.Props.ack_is_final",
     "HappyModel.C19.Props.ack_of_owed_message_takes_effect",
+    "HappyModel.C19.Props.redelivery_never_stuck",
     "HappyModel.C19.Props.delivery_reaches_consumer",
     "HappyModel.C19.Props.legacy_stale_stamp_witness",
     "HappyModel.C19.Props.legacy_ghost_pending_witness",
